@@ -2007,6 +2007,19 @@ fn c12_forwards(cases: &mut u64) -> Option<String> {
             for n in 0..=2usize {
                 *cases += 1;
                 let (ot, nt) = (to_text(o), to_text(nw));
+                // a second call with another radius on the SAME TextDiff (state carried between calls)
+                let again = guard(|| {
+                    let d = TextDiff::from_chars(&ot[..], &nt[..]);
+                    let first = d.grouped_ops(n);
+                    let _ = d.unified_diff().context_radius(n + 1).to_string();
+                    (first, d.grouped_ops(n + 2), group_diff_ops(d.ops().to_vec(), n + 2))
+                });
+                match again {
+                    Err(p) => return Some(format!("C12 grouped_ops twice old={:?} new={:?} n={}: {}", o, nw, n, p)),
+                    Ok((_, second, want)) => if second != want {
+                        return Some(format!("C12 TextDiff::from_chars({:?},{:?}): after grouped_ops({}) the call grouped_ops({}) returns {:?}, group_diff_ops(ops, {}) = {:?}", ot, nt, n, n + 2, second, n + 2, want));
+                    },
+                }
                 let r = guard(|| {
                     let d = TextDiff::from_chars(&ot[..], &nt[..]);
                     let mut c = Capture::new();
@@ -2496,7 +2509,10 @@ fn c17_slices(ctx: &str, old: &str, new: &str, sl: &[(ChangeTag, String)]) -> Re
 }
 
 fn c04(cases: &mut u64) -> Option<String> {
-    let texts = small_texts(4);
+    // a second, shorter alphabet with characters of 1, 2 and 3 bytes (word and whitespace runs of mixed UTF-8 widths)
+    let wide: Vec<String> = { let chars = ['a', '\u{e9}', ' ', '\u{3000}']; seqs(4, bd(3)).iter().map(|s| s.iter().map(|&x| chars[x as usize]).collect()).collect() };
+    let mut texts = small_texts(4);
+    texts.extend(wide.iter().cloned().filter(|t: &String| !t.is_ascii()));
     let own = |v: Vec<(ChangeTag, &str)>| -> Vec<(ChangeTag, String)> { v.into_iter().map(|(t, s)| (t, s.to_string())).collect() };
     for o in &texts {
         for n in &texts {
@@ -2651,7 +2667,7 @@ fn main() {
         "C12" => (c12(&mut cases), "alternating exact op lists up to 8 ops, equal lens {1,2,3,5,8}, 6 change shapes, n 0..=3; TextDiff::grouped_ops / Capture::into_grouped_ops == group_diff_ops on char diffs (alphabet {0,1,2}, len 0..=4, n 0..=2) and on 2^23 equal lines + 1 inserted line"),
         "C13" => (c13(&mut cases), "synthetic ops + captured ops for alphabet {0,1,2} len 0..=5 + TextDiff chars"),
         "C05" => (c05(&mut cases), "lines {a,b,c}, 0..=4 lines, optional missing final newline, radius 0..=2, deadline none / expired; 21 line diffs of 101..260 lines"),
-        "C04" | "C17" => (c04(&mut cases), "texts over {a,b,space,newline} len 0..=4, lines/words/chars, iter_all_changes (deadline none / expired) + remapper + utils helpers; 15 line diffs of 101..260 lines, one of 70000 distinct lines, one of 65000 lines with 600 rewritten (reconstruction through the integer-mapping path)"),
+        "C04" | "C17" => (c04(&mut cases), "texts over {a,b,space,newline} len 0..=4 and non-ASCII texts over {a, U+00E9, space, U+3000} len 0..=3, lines/words/chars, iter_all_changes (deadline none / expired) + remapper + utils helpers; 15 line diffs of 101..260 lines, one of 70000 distinct lines, one of 65000 lines with 600 rewritten (reconstruction through the integer-mapping path)"),
         _ => {
             eprintln!("usage: replay <C01|C02|C03|C04|C05|C07|C08|C09|C10|C11|C12|C13|C17>");
             std::process::exit(2);
